@@ -84,7 +84,7 @@ ASSUME = {
     "C16": [
   "templates are well-formed for the consumer (Spec/C16Spec.wf_template): a $n placeholder stands at a token boundary, has <= 18 digits; no quote glued into an @variable; x'..'/b'..' literals well-formed; no empty backtick identifier; a float exponent sign is followed by a digit",
   "[]byte and time.Time arguments are outside the property (string, integer, float, boolean, NULL) and not modelled",
-  "C16_shape is proved per literal (C16_shape_partial + C16_shape_partial_text); the template-level token equality (shape_ok) is evaluated by the correspondence check on the real output of every generated case",
+  "C16_shape (template-level token equality, shape_ok) is proved for every template/argument list on which the model's sanitizer answers Ok; a finite float whose exact decimal expansion exceeds 15 significant digits is OutOfModel (there the token shape is only evaluated on the real output at run time)",
     ],
     "C20": [
   "SETVAR is modelled where it is a whole select item; nested inside another expression, inside WHERE, or under a qualifier it is OutOfModel; GETVAR may occur anywhere inside SETVAR's value expression and in WHERE; register names are call-free expressions of the row",
